@@ -55,6 +55,9 @@ def tokenize(s):
             # but "a :b" is not (no whitespace inside a QName)
             toks.append(('name', v))
         elif k in ('op1', 'op2'):
+            if v == '$' and (i >= n or s[i] in ' \t\r\n'):
+                # VariableReference ::= '$' QName is ONE token of the lexical structure (3.7 [28], [36]): no white space inside it
+                raise XPathSyntaxError("white space after '$'")
             toks.append(('op', v))
         else:
             toks.append((k, v))
